@@ -80,7 +80,7 @@ func vrHitsSnapshot() map[string]uint64 {
 
 func vcScenC19(t *vcTrial) {
 	r := t.R
-	w := []string{"echo", "echo", "closers", "dials", "bigwrites", "pool", "slices", "shutdown", "lifecycle", "lifecycle", "manyconns", "emfile"}[r.intn(12)]
+	w := []string{"echo", "echo", "closers", "closers", "closers", "dials", "bigwrites", "pool", "slices", "shutdown", "lifecycle", "lifecycle", "manyconns", "emfile"}[r.intn(14)]
 	t.P("workload", w)
 	switch w {
 	case "echo":
@@ -256,7 +256,7 @@ func vrClosers(t *vcTrial) {
 	c.AddCloseCallback(func(Connection) error { return nil })
 	c.SetReadTimeout(time.Duration(r.rng(1, 20)) * time.Millisecond)
 	c.SetWriteTimeout(time.Duration(r.rng(1, 20)) * time.Millisecond)
-	if r.chance(60) {
+	if r.chance(80) {
 		// a small send buffer: the writer's sendmsg comes back short, the flush goes through the
 		// poller (Control(PollR2RW), waitFlush) and is in there when the closers arrive
 		vcSetBuf(c.(Conn).Fd(), 4<<10, 0)
